@@ -22,7 +22,7 @@ EXPLANATION = (
     "identical inputs; divide_objects and divide_objects_to_num select labels by the same table; (6) the precision envelope idiom of "
     "interpolate_precision_recall_list (start at the last point, scan backwards, keep a point iff its precision strictly exceeds the "
     "running maximum, recall of the same index, final point at recall 0); (7) the frame wiring that keeps TP <= GT (R-KW / R-TF on "
-    "evaluate_frame). Does not decide: that the running-maximum scan equals 'max precision at any higher recall' for every ranking "
+    "evaluate_frame). (shared with C03) the decision table of is_result_correct, which is what marks a result as TP. Does not decide: that the running-maximum scan equals 'max precision at any higher recall' for every ranking "
     "(an equivalence over runtime lists), the value bounds [0,1] / AP = 1 / AP = 0 as values."
 )
 
@@ -79,8 +79,24 @@ def rule_ranking(ctx: Ctx) -> None:
                   f"results are ranked with key `{S(key) if key is not None else None}` reverse={S(rev) if rev is not None else None}; AP needs descending confidence of the estimate (stable sort)",
                   fi=fi, expected="key=lambda x: x.estimated_object.semantic_score, reverse=True", found=f"key={kt or (S(key) if key is not None else None)}, reverse={S(rev) if rev is not None else None}",
                   sample={"key": kt, "reverse": S(rev) if rev is not None else None})
-        # the ranked list is what was collected from the input (flat or nested)
+        # the ranked list is what was collected from the input (flat or nested): every frame's list, each result once
+        if inst == "nested":
+            lps = [e for i, e in enumerate(p.effects) if i < ti and e.kind == "loop"]
+            if lps:
+                ctx.check(len(lps) == 1 and S(lps[0].text) == "object_results", "C04-ranking", "Ap.__init__", "collects-all-frames",
+                          f"the per-frame lists are collected by iterating `{S(lps[0].text)[:60]}`; expected every list of object_results", fi=fi)
     ctx.require(n >= 2, "Ap.__init__: fewer than two paths analysed")
+    # the caller's lists may be reordered (the flat list is sorted in place) but never grow, shrink or be rebound: the same container is scored
+    # several times (AP, APH, every threshold) and must hold each result once every time
+    from sa.effects import Effects
+    ef = Effects(ctx.index, ctx.resolver)
+    ef.solve()
+    for (prm, path), m in ef.of(fi).mutates.items():
+        if prm != "object_results":
+            continue
+        ctx.check(m.how in (".sort()", ".reverse()") and path == "", "C04-ranking", "Ap.__init__", f"input-membership:{path or 'list'}",
+                  f"Ap.__init__ changes its input `object_results{path}` by {m.how} (line {m.line}): the caller's per-frame lists are shared by the AP and APH computations of every threshold, "
+                  "growing one makes later scores count results twice", fi=fi, expected="only an in-place reorder of the flat list", found=f"{m.how} on object_results{path}")
     # AP is inf exactly without results
     for p in paths:
         st = [e for e in p.effects if e.kind == "store" and strip_v(e.recv) == "self.ap"]
@@ -429,6 +445,8 @@ def run(ctx: Ctx) -> None:
     ctx.run(rule_weights)
     ctx.run(rule_map)
     ctx.run(rule_divide)
+    from rules import C03
+    ctx.run(C03.rule_correct)  # what _calculate_tp_fp marks as TP: is_result_correct = label-compatible and strictly better than the label's threshold (0 is a threshold)
     scope = ("perception_eval.evaluation.result", "perception_eval.evaluation.metrics", "perception_eval.manager") if ctx.tier == "quick" else G.full_scope(ctx)
     ctx.run(G.rule_kw, scope, "R-KW", 20)
     ctx.run(G.rule_tf, scope, "R-TF", None, 8)
